@@ -5950,18 +5950,12 @@ def _fill_rests_global(
             )
             part.add(rest, min_end_note.end.t, end_time)
 
-    if un_voc_staff.shape[0] != unique_voc_staff.shape[0]:
-        if un_voc_staff.shape[0] == 0:
-            diff = unique_voc_staff
-        else:
-            # View `un_voc_staff` and `unique_voc_staff` as 1-D structured arrays
-            x_sa = un_voc_staff.view([("", un_voc_staff.dtype)] * un_voc_staff.shape[1])
-            y_sa = unique_voc_staff.view(
-                [("", unique_voc_staff.dtype)] * unique_voc_staff.shape[1]
-            )
-            # Find rows in `unique_voc_staff` that are not in `un_voc_staff`
-            diff = np.setdiff1d(y_sa, x_sa)
-        for voice, staff in diff:
+    # Every (voice, staff) pair of `unique_voc_staff` that has no element in this measure gets
+    # a rest for the whole measure (which pairs are missing cannot be told from the number
+    # of pairs present: the measure may hold a pair that is not in `unique_voc_staff`)
+    present = {(n.voice, n.staff if n.staff else 0) for n in notes}
+    for voice, staff in unique_voc_staff.tolist():
+        if (voice, staff) not in present:
             sym_dur = estimate_symbolic_duration(
                 end_time - start_time, part._quarter_durations[0]
             )
